@@ -81,6 +81,57 @@ Proof.
   rewrite select_node. cbn [leaves]. apply select_leaves_kids. exact IH.
 Qed.
 
+(* ---------- extract ---------- *)
+Definition leaf_own_box (p : N * dict) : Prop := type_is (snd p) kPage = true /\ has_box false (snd p) = true.
+
+Lemma eff_leaves_ok : forall t inh, shape_ok (is_some inh) t = true ->
+  forall p, In p (eff_leaves inh t) -> leaf_own_box p.
+Proof.
+  induction t as [id d|d kids IH] using ptree_ind'; intros inh H p Hp.
+  - simpl in Hp. destruct Hp as [<-|[]]. simpl in H. apply andb_true_iff in H. destruct H as [Ht Hb].
+    unfold leaf_own_box. simpl. unfold has_box in *. destruct (dfind kMediaBox d) eqn:F.
+    + split; [exact Ht|]. rewrite F. reflexivity.
+    + destruct inh as [b|]; simpl in Hb; [|discriminate].
+      split; [rewrite type_is_dset by reflexivity; exact Ht|]. rewrite dfind_dset_same. reflexivity.
+  - simpl in Hp. apply in_flat_map in Hp. destruct Hp as [k [Hk Hp]].
+    simpl in H. apply andb_true_iff in H. destruct H as [_ Hks].
+    rewrite forallb_forall in Hks. rewrite Forall_forall in IH.
+    apply (IH k Hk (orelse (dfind kMediaBox d) inh)); [|exact Hp].
+    rewrite <- (Hks k Hk). f_equal. unfold has_box. destruct (dfind kMediaBox d); destruct inh; reflexivity.
+Qed.
+
+Lemma find_leaf_ok : forall id ls, (forall p, In p ls -> leaf_own_box p) ->
+  forallb (tree_ok false) (find_leaf id ls) = true.
+Proof.
+  intros id ls H. unfold find_leaf. destruct (find (fun p => N.eqb (fst p) id) ls) as [[i d]|] eqn:F; [|reflexivity].
+  apply find_some in F. destruct F as [Hin _]. destruct (H (i, d) Hin) as [Ht Hb].
+  simpl in *. rewrite Ht, Hb. reflexivity.
+Qed.
+
+Lemma extract_ok : forall sel t, shape_ok false t = true -> tree_ok false (extract sel t) = true.
+Proof.
+  intros sel t H. unfold extract. cbn [tree_ok].
+  assert (Ht : type_is [(kType, OName kPages); (kCount, OInt (count_list (flat_map (fun id => find_leaf id (eff_leaves None t)) sel)))] kPages = true) by reflexivity.
+  rewrite Ht. unfold count_is at 1. cbn [dfind]. simpl beqb. cbn iota. rewrite Z.eqb_refl. simpl andb.
+  pose proof (eff_leaves_ok t None H) as Hl. clear Ht.
+  induction sel as [|id sel IH]; [reflexivity|].
+  cbn [flat_map]. rewrite forallb_app. rewrite IH, andb_true_r.
+  assert (forallb (tree_ok false) (find_leaf id (eff_leaves None t)) = true) by (apply find_leaf_ok; exact Hl).
+  unfold has_box. simpl. exact H0.
+Qed.
+
+Lemma extract_ids : forall sel t, NoDup (map fst (eff_leaves None t)) -> incl sel (map fst (eff_leaves None t)) ->
+  map fst (leaves (extract sel t)) = sel.
+Proof.
+  intros sel t _ Hi. unfold extract. cbn [leaves]. induction sel as [|id sel IH]; [reflexivity|].
+  cbn [flat_map]. rewrite flat_map_app, map_app, IH by (intros x Hx; apply Hi; right; exact Hx).
+  assert (Hin : In id (map fst (eff_leaves None t))) by (apply Hi; left; reflexivity).
+  unfold find_leaf. destruct (find (fun p => N.eqb (fst p) id) (eff_leaves None t)) as [[i d]|] eqn:F.
+  - apply find_some in F. destruct F as [_ E]. simpl in E. apply N.eqb_eq in E. subst. reflexivity.
+  - exfalso. apply in_map_iff in Hin. destruct Hin as [p [Ep Hp]].
+    pose proof (find_none _ _ F p Hp) as Hn. simpl in Hn. rewrite Ep, N.eqb_refl in Hn. discriminate.
+Qed.
+
 (* ---------- insert_blank ---------- *)
 Definition ins_kids (before : bool) (sel : N -> bool) (box : obj) : list ptree -> list ptree :=
   fix go (l : list ptree) : list ptree :=
